@@ -199,6 +199,9 @@ func runSpec(docText []byte, cont bool, in *interner, reg strfmt.Registry, reuse
 				sharedSV[cont] = sv
 			}
 		}
+		if useSkipSchemata {
+			sv.Options.SkipSchemataResult = true
+		}
 		errs, warns := sv.Validate(d)
 		if errs == nil || warns == nil {
 			res.out = "nilresult"
@@ -330,6 +333,7 @@ func driveSpec(args []string) error {
 	extra := fs.String("docs", "", "file with further documents, one JSON per line (validated unedited)")
 	out := fs.String("out", "", "output directory")
 	shard := fs.String("shard", "0/1", "k/n: handle documents with index mod n = k")
+	onlyCrashed := fs.Bool("only-crashed", false, "report the validations listed in -crashed and run nothing")
 	nff := fs.Bool("normalize-first-found", false, "compare 'First found' messages up to the reference they name (open finding C10/FirstFoundUnresolved, while live)")
 	crashed := fs.String("crashed", "", "comma separated <doc index>:<mode>:<how> of validations that killed (or hung) an earlier attempt of this run: they are reported, not run again")
 	fs.Parse(args)
@@ -474,6 +478,9 @@ func driveSpec(args []string) error {
 					return err
 				}
 				inChunk++
+				continue
+			}
+			if *onlyCrashed {
 				continue
 			}
 			_ = os.WriteFile(filepath.Join(*out, "current.txt"), []byte(fmt.Sprintf("%d:%s", di, modeName)), 0o644)
